@@ -3,6 +3,7 @@ package main
 import (
 	"fmt"
 	"go/token"
+	"go/types"
 
 	"golang.org/x/tools/go/ssa"
 )
@@ -131,82 +132,141 @@ func runC10(p *Prog, r *Report, tier string) {
 	// (1b) the entry that carries the timer: a timer's callback is bound to the keys addTemplate was called with when the
 	// timer was created, so an entry may only ever be reached under those keys: it is a fresh allocation (no timer yet)
 	// or the result of the map lookup under this call's keys - never an object recycled from elsewhere.
+	// Both rules are decided on the enumerated paths of addTemplate (abspath.go): the entry may be merged from a lookup
+	// helper's results (nil when the domain has no templates yet, the stored entry otherwise) and replaced on the miss
+	// edge; which value reaches a store depends on the path taken, and so does "the lookup missed".
 	nEnt := 0
+	type entrySite struct {
+		fn  string
+		bad string
+	}
+	entries := map[ssa.Instruction]*entrySite{}
+	var entryOrder []ssa.Instruction
+	type updSite struct{ onMissAll, seen bool }
+	updates := map[ssa.Instruction]*updSite{}
+	var updOrder []ssa.Instruction
+	// the comma-ok lookups of the template store in this function: outer (by observation domain) and inner (by template id)
+	type lk struct {
+		ex    *ssa.Extract // the ok result (comma-ok form)
+		val   *ssa.Lookup  // the looked-up entry itself (plain form: nil means "none stored", only non-nil entries are stored)
+		inner bool
+	}
+	var lookups []lk
 	eachInstr(at, func(in ssa.Instruction) {
-		st, ok := in.(*ssa.Store)
+		l, ok := in.(*ssa.Lookup)
 		if !ok {
 			return
 		}
-		tn, fn, base, ok := fieldOf(st.Addr)
-		if !ok || tn != "pkg/collector.template" || (fn != "expiryTimer" && fn != "expiryTime") {
+		if !l.CommaOk {
+			if mt, ok := l.X.Type().Underlying().(*types.Map); ok && typeName(mt.Elem()) == "pkg/collector.template" {
+				if pf, i := paramIndex(p.origin(l.Index)); pf == at && i == 2 {
+					lookups = append(lookups, lk{val: l, inner: true})
+				}
+			}
 			return
 		}
-		nEnt++
-		bad := ""
-		seen := map[ssa.Value]bool{}
-		var walk func(v ssa.Value)
-		walk = func(v ssa.Value) {
-			v = stripChange(v)
-			if seen[v] {
+		mt, ok := l.X.Type().Underlying().(*types.Map)
+		if !ok {
+			return
+		}
+		inner := typeName(mt.Elem()) == "pkg/collector.template"
+		outer := isFieldLoad(l.X, "pkg/collector.CollectingProcess.templatesMap")
+		if !inner && !outer {
+			return
+		}
+		want := 1
+		if inner {
+			want = 2
+		}
+		if pf, i := paramIndex(p.origin(l.Index)); pf != at || i != want {
+			return
+		}
+		for _, ex := range extractOf(l, 1) {
+			lookups = append(lookups, lk{ex: ex, inner: inner})
+		}
+	})
+	w := &absWalker{MaxPaths: 20000}
+	w.OnInstr = func(st *absState, in ssa.Instruction) {
+		switch x := in.(type) {
+		case *ssa.Store:
+			tn, fn, base, ok := fieldOf(x.Addr)
+			if !ok || tn != "pkg/collector.template" || (fn != "expiryTimer" && fn != "expiryTime") {
 				return
 			}
-			seen[v] = true
-			switch x := v.(type) {
-			case *ssa.Phi:
-				for _, e := range x.Edges {
-					walk(e)
-				}
+			es := entries[in]
+			if es == nil {
+				es = &entrySite{fn: fn}
+				entries[in] = es
+				entryOrder = append(entryOrder, in)
+			}
+			switch v := st.resolve(base).(type) {
 			case *ssa.Alloc:
-				if !x.Heap {
-					bad = "a non-heap allocation"
+				if !v.Heap {
+					es.bad = "a non-heap allocation"
 				}
 			case *ssa.Extract:
-				if lk, ok := x.Tuple.(*ssa.Lookup); ok && lk.CommaOk {
-					// inner-map lookup keyed by this call's template id
-					if pf, i := paramIndex(p.origin(lk.Index)); pf == at && i == 2 {
+				if l, ok := v.Tuple.(*ssa.Lookup); ok && l.CommaOk {
+					if pf, i := paramIndex(p.origin(l.Index)); pf == at && i == 2 {
 						return
 					}
-					bad = "a lookup under another key"
+					es.bad = "a lookup under another key"
 					return
 				}
-				bad = "the result of " + x.Tuple.Name()
+				es.bad = "the result of " + v.Tuple.Name()
+			case *ssa.Lookup:
+				if pf, i := paramIndex(p.origin(v.Index)); pf == at && i == 2 && !v.CommaOk {
+					return
+				}
+				es.bad = "a lookup under another key"
 			default:
-				bad = fmt.Sprintf("%T %s", v, v.Name())
+				es.bad = fmt.Sprintf("%T %s", v, v.Name())
 			}
-		}
-		walk(base)
-		r.Check(bad == "", "R-TIMER.entry-origin", fmt.Sprintf("%s: entry whose %s is written", fnKey(at), fn), p.instrPos(in), "a fresh &template{} or templatesMap[obsDomainID][templateID] of this call",
-			"the template entry comes from "+bad+": an entry that already carries a timer armed for other keys would be re-armed, and its callback expires the wrong template", true)
-	})
-	// a fresh entry replaces nothing: it is created and put into the map only on the miss edge of the lookup. Created for
-	// an id that IS stored (for whatever reason: "different definition", ...) it orphans the old entry's armed timer and
-	// gives the template a second one.
-	eachInstr(at, func(in ssa.Instruction) {
-		mu, ok := in.(*ssa.MapUpdate)
-		if !ok {
-			return
-		}
-		al, ok := stripChange(mu.Value).(*ssa.Alloc)
-		if !ok || typeName(al.Type()) != "pkg/collector.template" {
-			return
-		}
-		onMiss := false
-		for _, gd := range guardsOf(in.Block()) {
-			cond, succ := gd.If.Cond, gd.Succ
-			if u, ok := cond.(*ssa.UnOp); ok && u.Op == token.NOT {
-				cond, succ = u.X, 1-succ
+		case *ssa.MapUpdate:
+			al, ok := st.resolve(x.Value).(*ssa.Alloc)
+			if !ok || typeName(al.Type()) != "pkg/collector.template" {
+				return
 			}
-			if ex, ok := cond.(*ssa.Extract); ok && ex.Index == 1 && succ == 1 {
-				if lk, ok := ex.Tuple.(*ssa.Lookup); ok && lk.CommaOk {
-					if pf, i := paramIndex(p.origin(lk.Index)); pf == at && i == 2 {
-						onMiss = true
+			us := updates[in]
+			if us == nil {
+				us = &updSite{onMissAll: true}
+				updates[in] = us
+				updOrder = append(updOrder, in)
+			}
+			us.seen = true
+			miss := false
+			for _, l := range lookups {
+				if l.ex != nil {
+					if okV, known := st.bools[st.key(l.ex)]; known && !okV {
+						miss = true
 					}
+				} else if isNil, known := st.bools["nil:"+st.key(l.val)]; known && isNil {
+					miss = true
 				}
 			}
+			if !miss {
+				us.onMissAll = false
+			}
 		}
-		r.Check(onMiss, "R-TIMER.entry-on-miss", fnKey(at)+": a new template entry is stored only when none exists", p.instrPos(in), "dominated by the miss edge of templatesMap[obsDomainID][templateID]",
+	}
+	if len(at.Blocks) > 0 {
+		w.walk(newAbsState(), at.Blocks[0], 0)
+	}
+	if w.Overflow {
+		r.Undecided("R-TIMER.entry-origin", fnKey(at)+": paths of addTemplate", p.pos(at.Pos()), "too many paths")
+	}
+	for _, in := range entryOrder {
+		es := entries[in]
+		nEnt++
+		r.Check(es.bad == "", "R-TIMER.entry-origin", fmt.Sprintf("%s: entry whose %s is written", fnKey(at), es.fn), p.instrPos(in), "a fresh &template{} or templatesMap[obsDomainID][templateID] of this call",
+			"the template entry comes from "+es.bad+": an entry that already carries a timer armed for other keys would be re-armed, and its callback expires the wrong template", true)
+	}
+	// a fresh entry replaces nothing: it is created and put into the map only on a way in on which the lookup missed.
+	// Created for an id that IS stored (for whatever reason: "different definition", ...) it orphans the old entry's armed
+	// timer and gives the template a second one.
+	for _, in := range updOrder {
+		r.Check(updates[in].onMissAll, "R-TIMER.entry-on-miss", fnKey(at)+": a new template entry is stored only when none exists", p.instrPos(in), "dominated by the miss edge of templatesMap[obsDomainID][templateID]",
 			"a fresh entry can replace a stored one: the replaced entry's timer stays armed (an orphan that fires later) and the template gets a second timer - 'exactly one armed timer per stored template, none for removed ones' is lost", true)
-	})
+	}
 	if nEnt == 0 {
 		r.Undecided("R-TIMER.entry-origin", fnKey(at)+": stores to template.expiryTimer / expiryTime", p.pos(at.Pos()), "none found")
 	}
